@@ -151,7 +151,7 @@ def check(ctx, pcirc, order, link_order, assigns, replay, setp=None):
 
 
 def gen_case(rng, nmax):
-    pcirc, pnames = c04.random_pcirc(rng, nmax)
+    pcirc, pnames = c04.random_pcirc(rng, nmax, shared_names=False)   # maps_all_pins needs unique names
     n = len(pcirc["comps"])
     order = list(range(n))
     rng.shuffle(order)
